@@ -11,3 +11,8 @@ import Emitter.Props.C02
 #print axioms Emitter.C02.reject_subscribe
 #print axioms Emitter.C02.reject_unsubscribe
 #print axioms Emitter.C02.reject_publish
+#print axioms Emitter.C02.history_refines
+#print axioms Emitter.C02.refines_step
+#print axioms Emitter.C02.publish_history_exact
+#print axioms Emitter.C02.publish_history_iff
+#print axioms Emitter.C02.removed_never_receives
